@@ -3,28 +3,28 @@
 From RV Require Import Model.SstTable Proofs.C17_Codec Proofs.C17_Table Proofs.C17_Bloom.
 Open Scope N_scope.
 
-Theorem reopen_loads_writer_metadata es :
-  blen (ser_entries es) < 4294967296 ->
-  table_meta (reopen (write_table es)) = table_meta (write_table es).
+Theorem reopen_loads_writer_metadata tp es :
+  params_ok tp -> blen (ser_entries es) < 4294967296 ->
+  table_meta (reopen (write_table tp es)) = table_meta (write_table tp es).
 Proof.
-  intros H. unfold table_meta at 1.
-  change (t_meta (reopen (write_table es))) with (@None (bloom * list N)). cbv iota.
-  rewrite (load_footer_write_table es H (bloom_of_decode_encode es)). reflexivity.
+  intros Hp H. unfold table_meta at 1.
+  change (t_meta (reopen (write_table tp es))) with (@None (bloom * list N)). cbv iota.
+  rewrite (load_footer_write_table tp es H (fun r => bloom_of_decode_encode tp es r Hp)). reflexivity.
 Qed.
 
-Theorem table_get_reopen_same clamp es key :
-  blen (ser_entries es) < 4294967296 ->
-  table_get_gen clamp (reopen (write_table es)) key = table_get_gen clamp (write_table es) key.
+Theorem table_get_reopen_same clamp tp es key :
+  params_ok tp -> blen (ser_entries es) < 4294967296 ->
+  table_get_gen clamp (reopen (write_table tp es)) key = table_get_gen clamp (write_table tp es) key.
 Proof.
-  intros H. unfold table_get_gen. rewrite (reopen_loads_writer_metadata es H), body_of_reopen. reflexivity.
+  intros Hp H. unfold table_get_gen. rewrite (reopen_loads_writer_metadata tp es Hp H), body_of_reopen. reflexivity.
 Qed.
 
-Theorem table_scan_reopen_is_filter es p :
-  Forall entry_ok es -> blen (ser_entries es) < 4294967296 ->
-  table_scan_prefix (reopen (write_table es)) p = Some (scan_spec es p).
+Theorem table_scan_reopen_is_filter tp es p :
+  params_ok tp -> Forall entry_ok es -> blen (ser_entries es) < 4294967296 ->
+  table_scan_prefix (reopen (write_table tp es)) p = Some (scan_spec es p).
 Proof.
-  intros Hok H. rewrite <- (table_scan_is_filter es p Hok).
-  unfold table_scan_prefix. rewrite (reopen_loads_writer_metadata es H), body_of_reopen. reflexivity.
+  intros Hp Hok H. rewrite <- (table_scan_is_filter tp es p Hok).
+  unfold table_scan_prefix. rewrite (reopen_loads_writer_metadata tp es Hp H), body_of_reopen. reflexivity.
 Qed.
 
 (* the descriptor round trip (Document, JSON, NewTableFromDocument) keeps the file, the sizes and the key range *)
@@ -33,6 +33,6 @@ Theorem reopen_keeps_descriptor t :
   t_start (reopen t) = t_start t /\ t_end (reopen t) = t_end t.
 Proof. repeat split. Qed.
 
-Theorem reopen_range_is_first_last es :
-  t_start (reopen (write_table es)) = first_key es /\ t_end (reopen (write_table es)) = last_key es.
+Theorem reopen_range_is_first_last tp es :
+  t_start (reopen (write_table tp es)) = first_key es /\ t_end (reopen (write_table tp es)) = last_key es.
 Proof. split; reflexivity. Qed.
